@@ -183,6 +183,10 @@ def run(tier: str, seed: int) -> int:
     run_.exhaustive = True
     run_.assumptions = ["numpy cos for analytic values", "tolerance 1e-10 relative"]
     shutil.rmtree(work, ignore_errors=True)
+    # hook events recorded by the library itself (this process and the repository's own tests run with EXPONAX_VERIF=1), validated by
+    # TLC against spec/Trace_Hooks.tla: Resample
+    from .. import hooktrace as _ht
+    _ht.check(run_, PID, ['Resample'], ['tests/test_interpolation.py'], {'ev': 'Resample', 'shape': [2, 8, 8], 'new_num_points': 12, 'out_shape': [2, 12, 8], 'outcome': 'returned'})
     # layout arithmetic for EVERY N (Apalache, unbounded integers): BlocksAllN, RightKeepsAllN
     from .. import tlc as _tlc
     for _inv in ['BlocksAllN', 'RightKeepsAllN']:
